@@ -225,7 +225,8 @@ fn life(shape_ix: u32) {
             if xi >= exts.len() { x = Ext { kind: 9, from: 0 }; break; }
             let cand = &exts[xi]; xi += 1;
             if cand.kind == 3 { continue; }
-            if cand.kind == 1 && sid_run[cand.from] == 0 { continue; }
+            // ... including the done.invoke of a child that was cancelled before ("processes no event from a child after cancelling it")
+            if (cand.kind == 1 || cand.kind == 2) && sid_run[cand.from] == 0 { continue; }
             x = Ext { kind: cand.kind, from: cand.from };
             break;
         }
